@@ -66,7 +66,7 @@ func (ex *Exec) slcHeap(st *State, es string) (string, Term) {
 
 func (ex *Exec) slcElem(st *State, s Term, i Term, es string) Term {
 	_, h := ex.slcHeap(st, es)
-	return sel(sel(h, sBase(s), arraySort(SInt, es)), add(sOff(s), i), es)
+	return sel(sel(h, sBase(s), arraySort(SInt, es)), eix(sOff(s), i), es)
 }
 
 func (ex *Exec) mapHeaps(st *State, mt *types.Map) (hn, vn string, has, val Term, ks, vs string) {
@@ -331,7 +331,7 @@ func (ex *Exec) makeSlice(st *State, in *ssa.MakeSlice) Value {
 	base := ex.newRef(st, "slice")
 	name, h := ex.slcHeap(st, es)
 	as := arraySort(SInt, es)
-	ex.setHeap(st, name, sto(h, base, mk(as, fmt.Sprintf("((as const %s) %s)", as, ex.zero(stp.Elem()).S))))
+	ex.setHeap(st, name, sto(h, base, ex.constArr(as, ex.zero(stp.Elem()))))
 	return mkSlc(base, intLit(0), ln, cp)
 }
 
@@ -492,16 +492,19 @@ func (ex *Exec) appendOp(st *State, in ssa.CallInstruction, args []ssa.Value) Va
 		e0 := elemAt(intLit(0))
 		// in place: one store; fresh: copy then store
 		cp := ex.fresh("apparr", as)
-		st.assume(mk(SBool, fmt.Sprintf("(forall ((j Int)) (! (=> (and (<= 0 j) (< j %s)) (= (select %s j) (select %s (+ %s j)))) :pattern ((select %s j))))",
-			sLen(s).S, cp.S, oldArr.S, sOff(s).S, cp.S)))
-		newArr = ite(inplace, sto(oldArr, add(sOff(s), sLen(s)), e0), sto(cp, sLen(s), e0))
+		st.assume(mk(SBool, fmt.Sprintf("(forall ((j Int)) (! (=> (and (<= 0 j) (< j %s)) (= (select %s j) (select %s %s))) :pattern ((select %s j))))",
+			sLen(s).S, cp.S, oldArr.S, eix(sOff(s), mk(SInt, "j")).S, cp.S)))
+		newArr = ite(inplace, sto(oldArr, eix(sOff(s), sLen(s)), e0), sto(cp, sLen(s), e0))
 	} else {
 		na := ex.fresh("apparr", as)
 		jt := mk(SInt, "j")
-		st.assume(mk(SBool, fmt.Sprintf("(forall ((j Int)) (! (=> (and (<= 0 j) (< j %s)) (= (select %s (+ %s j)) (select %s (+ %s j)))) :pattern ((select %s (+ %s j)))))",
-			sLen(s).S, na.S, slcOff(r).S, oldArr.S, sOff(s).S, na.S, slcOff(r).S)))
-		st.assume(mk(SBool, fmt.Sprintf("(forall ((j Int)) (! (=> (and (<= 0 j) (< j %s)) (= (select %s (+ (+ %s %s) j)) %s)) :pattern ((select %s (+ (+ %s %s) j)))))",
-			tl.S, na.S, slcOff(r).S, sLen(s).S, elemAt(jt).S, na.S, slcOff(r).S, sLen(s).S)))
+		jv := mk(SInt, "j")
+		dstJ := eix(slcOff(r), jv)
+		st.assume(mk(SBool, fmt.Sprintf("(forall ((j Int)) (! (=> (and (<= 0 j) (< j %s)) (= (select %s %s) (select %s %s))) :pattern ((select %s %s))))",
+			sLen(s).S, na.S, dstJ.S, oldArr.S, eix(sOff(s), jv).S, na.S, dstJ.S)))
+		dstT := eix(slcOff(r), add(sLen(s), jv))
+		st.assume(mk(SBool, fmt.Sprintf("(forall ((j Int)) (=> (and (<= 0 j) (< j %s)) (= (select %s %s) %s)))",
+			tl.S, na.S, dstT.S, elemAt(jt).S)))
 		st.assume(implies(inplace, mk(SBool, fmt.Sprintf("(forall ((j Int)) (! (=> (or (< j (+ %s %s)) (>= j (+ (+ %s %s) %s))) (= (select %s j) (select %s j))) :pattern ((select %s j))))",
 			sOff(s).S, sLen(s).S, sOff(s).S, sLen(s).S, tl.S, na.S, oldArr.S, na.S))))
 		newArr = na
@@ -526,7 +529,7 @@ func (ex *Exec) copyOp(st *State, in ssa.CallInstruction, args []ssa.Value) Valu
 		s := ex.term(st, ex.val(st, args[1]))
 		sl = sLen(s)
 		_, h0 := ex.slcHeap(st, es)
-		elemAt = func(j Term) Term { return sel(sel(h0, sBase(s), as), add(sOff(s), j), es) }
+		elemAt = func(j Term) Term { return sel(sel(h0, sBase(s), as), eix(sOff(s), j), es) }
 	}
 	n := app(SInt, "imin", sLen(d), sl)
 	name, h := ex.slcHeap(st, es)
